@@ -14,6 +14,12 @@ W_PRELUDE = r'''
 '''
 
 
+# "constant-evaluation model": the branches that only constant evaluation takes are lowered as ordinary code -- sbepp's own detail::is_constant_evaluated() through hook H3,
+# libstdc++'s std::is_constant_evaluated() (element-wise loops instead of memmove/memchr/... in std::copy, copy_backward, fill, find, equal ...) by defining the builtin away.
+# It is a model of WHAT the constant evaluator executes, not of the evaluator itself (which additionally rejects undefined behaviour).
+CE_FLAGS = ("-DSBEPP_VERIF_CONSTANT_EVALUATED", "-D__builtin_is_constant_evaluated()=true")
+
+
 def harness(units, body, pre=""):
     inc = "".join('#include "%s"\n' % u["h"] for u in units)
     return '#include "harness_rt.h"\n' + inc + pre + "\nvoid harness(void) {\n" + body + "\n#ifdef WITNESS\n  WITNESS_POINT();\n#endif\n}\n"
